@@ -9,6 +9,7 @@ from vlib import sigfile
 from vlib.core import exc_site, fmt_exc
 from vlib.redzone import Frame
 
+AUDIT_INPUT_FILES = True   # after every case the driver verifies that the synthesised input files still hold their bytes
 PROPERTY = "C11"
 LEVEL = "exploration"
 CLAIM = {
